@@ -744,7 +744,23 @@ pub fn bitcoin_scripts(rng: &mut Rng, n: usize) -> Vec<Vec<u8>> {
                         fake_pubkey(rng, c)
                     })
                     .collect();
-                out.push(multisig(m, &keys, nn));
+                let mut ms = multisig(m, &keys, nn);
+                // the token in front of OP_CHECKMULTISIG is not a number opcode (or is missing)
+                if rng.chance(1, 5) {
+                    let l = ms.len();
+                    match rng.below(3) {
+                        0 => ms[l - 2] = *rng.pick(&[0x61u8, 0x76, 0xac, 0x4f, 0x75, 0x87, 0xae]),
+                        1 => {
+                            ms.remove(l - 2);
+                        }
+                        _ => {
+                            ms.truncate(l - 2);
+                            ms.extend(crate::ser::push(&[nn.max(1)]));
+                            ms.push(0xae);
+                        }
+                    }
+                }
+                out.push(ms);
             }
             13 => {
                 let k = rng.usize(1, 10);
@@ -878,6 +894,13 @@ pub fn hostile(rng: &mut Rng) -> Vec<u8> {
         }
         6 => vec![0xff; rng.usize(1, 100_000)],
         7 => vec![0x00; rng.usize(1, 100_000)],
+        8 if rng.chance(1, 6) => {
+            // beyond 100 KB: buffer-growth edges (2^17 and neighbours, 2^18, 1 MB)
+            let n = *rng.pick(&[131_071usize, 131_072, 131_073, 150_000, 262_145, 1_000_000]);
+            let mut v = rng.bytes(64);
+            v.resize(n, 0x51);
+            v
+        }
         8 => rng.bytes_range(0, 100_000),
         9 => {
             // PUSHDATA2 claiming exactly / one more than what follows
